@@ -262,7 +262,7 @@ func (k *Keys) ReadKey() (key rune, isAbort bool) {
 
 	case k.waiting:
 		buf := <-k.keysOnce
-		key = []rune(string(buf))[0]
+		key = k.firstKey(buf)
 	default:
 		// Read until we get a key (a read might only hold a cursor position
 		// report), and consider a closed or failing input as an abort.
@@ -275,7 +275,7 @@ func (k *Keys) ReadKey() (key rune, isAbort bool) {
 			}
 		}
 
-		key = []rune(string(buf))[0]
+		key = k.firstKey(buf)
 	}
 
 	// Always mark those keys as matched, so that
@@ -284,6 +284,14 @@ func (k *Keys) ReadKey() (key rune, isAbort bool) {
 	k.matched = append(k.matched, key)
 
 	return key, key == inputrc.Esc
+}
+
+// firstKey returns the first key of a read, and keeps the other ones for later.
+func (k *Keys) firstKey(read []byte) rune {
+	key, size := utf8.DecodeRune(read)
+	k.buf = append(k.buf, read[size:]...)
+
+	return key
 }
 
 // Pop removes the first byte in the key stack (first read) and returns it.
